@@ -63,11 +63,11 @@ def gen_case(rng, tier, index):
                         "up-%x" % rng.getrandbits(24), "t%d" % rng.randrange(3)])
         elif r < 0.42:
             k = rng.choice(["branch", "branch", "tag", "commit", "commit_on_branch", "commit_on_branch", "tag_on_branch",
-                            "dir", "add2", "rm2", "toimport", "togit", "rebase", "both_branch", "both_branch"])
+                            "dir", "add2", "add2imp", "rm2", "toimport", "togit", "rebase", "both_branch", "both_branch"])
             ops.append(["spec", k, rng.choice(["master", "dev"]), "t%d" % rng.randrange(3), rng.choice([".", "sub", "sub2"]),
                         rng.randrange(nrepo)])
         elif r < 0.67:
-            k = rng.choice(["dirty", "untracked", "commit", "branch", "detach", "sidebranch", "stash"])
+            k = rng.choice(["dirty", "untracked", "commit", "branch", "detach", "sidebranch", "stash", "untracked_dir"])
             ops.append(["user", k, rng.randrange(2), rng.choice(FILES), marker()])
         else:
             k = rng.choice(["dev", "dev", "dev", "dev-clean-checkout", "clean-s", "clean-attic"])
@@ -126,8 +126,14 @@ def directed_cases(tier):
                       "ops": [["bob", "dev", 1], ["spec", "add2", "master", "t0", ".", 1], ["bob", "dev", 2],
                               ["spec", "both_branch", "dev", "t0", ".", 0], ["bob", "dev", 3],
                               U("commit", "master"), ["spec", "both_branch", "master", "t0", ".", 0], ["bob", "dev", 4]]})
+    for release in (False, True):
+        for addk in ("add2", "add2imp"):
+            convs.append({"nrepo": 2, "spec": {"scms": [{"type": "git", "repo": 0, "branch": "master", "dir": "."}]},
+                          "release": release, "directed": "new SCM over the user's directory (%s), retried" % addk,
+                          "ops": [["bob", "dev", 1], ["user", "untracked_dir", 0, "a.txt", "MARK9Xc%d%s" % (release, addk)],
+                                  ["spec", addk, "master", "t0", ".", 1], ["bob", "dev", 2], ["bob", "dev", 3], ["bob", "dev", 4]]})
     if tier != "thorough":
-        convs = [c for i, c in enumerate(convs) if i < 4 or i % 2 == 0 or "two SCMs" in c["directed"]]
+        convs = [c for i, c in enumerate(convs) if i < 4 or i % 2 == 0 or "two SCMs" in c["directed"] or "new SCM over" in c["directed"]]
     if tier != "thorough":
         npairs = len(pairs)
         out = out[:6] + out[12:16] + out[npairs:npairs + 2] + out[npairs + 2::3] + out[2 * npairs - 4:]
@@ -409,6 +415,8 @@ def run_case(case):
                         d2 = "ext" if s0["dir"] != "ext" else "ext2"
                         spec["scms"].append({"type": "git", "repo": ri % len(repos), "branch": "master",
                                              "dir": d2 if s0["dir"] != "." else d2})
+                    elif k == "add2imp" and len(spec["scms"]) == 1:
+                        spec["scms"].append({"type": "import", "dir": "ext" if s0["dir"] != "ext" else "ext2"})
                     elif k == "rm2" and len(spec["scms"]) > 1:
                         spec["scms"].pop()
                     elif k == "toimport" and s0["type"] == "git":
@@ -434,6 +442,9 @@ def run_case(case):
                             fh.write(mark + "\n")
                     elif k == "untracked":
                         common.write_file(os.path.join(d, "untracked-%s.txt" % mark[:8]), mark + "\n")
+                    elif k == "untracked_dir":
+                        # a directory of the user's own, named like the place a second SCM may be added at
+                        common.write_file(os.path.join(d, "ext", "notes-%s.txt" % mark[:8]), mark + "\n")
                     elif k == "commit":
                         common.write_file(os.path.join(d, "user-%s.txt" % mark[:8]), mark + "\n")
                         git.run(d, "add", "-A")
